@@ -3,9 +3,9 @@
 tier="${1:-quick}"
 cd /verif
 for m in ${BENIGN_DIR:-mutants/benign}/*.diff; do
-  out=$(tools/mutant.sh "$m" "C06 C07 C08 C09 C10 C11 C12 C16" "$tier" 2>&1)
+  out=$(tools/mutant.sh "$m" "${BENIGN_PROPS:-C06 C07 C08 C09 C10 C11 C12 C16}" "$tier" 2>&1)
   echo "$out" | grep -q "suite FAILS" && { echo "BENIGN $(basename $m): repo suite fails (drop it)"; continue; }
   echo "$out" | grep -q "does not apply" && { echo "BENIGN $(basename $m): does not apply"; continue; }
   bad=$(echo "$out" | grep "MUTANT: .* exit=" | grep -v "exit=0" | sed 's/MUTANT: //')
-  if [ -z "$bad" ]; then echo "BENIGN $(basename $m): all 8 checks quiet"; else echo "BENIGN $(basename $m): FALSE ALARM"; echo "$bad"; echo "$out" | grep "^violation\|^INFRA" | head -5; fi
+  if [ -z "$bad" ]; then echo "BENIGN $(basename $m): all checks quiet (${BENIGN_PROPS:-all 8})"; else echo "BENIGN $(basename $m): FALSE ALARM"; echo "$bad"; echo "$out" | grep "^violation\|^INFRA" | head -5; fi
 done
